@@ -368,36 +368,16 @@ fn run(c: &Case, _ctx: &Ctx) -> Outcome {
         return out.skip("mixed_offsets_not_judged");
     }
 
-    let mut matched = false;
-    let mut first_diff = String::new();
-    for reading in MARK_READINGS {
-        match reference(&ordered, &c.keep, c.now, reading) {
-            RefOutcome::Ambiguous => return out.skip("calendar_span_readings_disagree"),
-            RefOutcome::Decisions(dec) => {
-                let same = dec.len() == got.len()
-                    && dec
-                        .iter()
-                        .zip(got.iter())
-                        .all(|(d, g)| d.keep == g.1 && d.reasons == g.2);
-                if same {
-                    matched = true;
-                    break;
-                }
-                if first_diff.is_empty() {
-                    first_diff = describe_diff(&ordered, &dec, &got);
-                }
-                if !has_marks {
-                    break; // readings only differ when marks are present
-                }
-            }
+    match judge(&ordered, &got, &c.keep, c.now, has_marks) {
+        Judged::Match => {}
+        Judged::Skip(why) => return out.skip(why),
+        Judged::Diff(first_diff) => {
+            let mut o = Outcome::fail(format!(
+                "keep decision differs from the documented rules: {first_diff}"
+            ));
+            o.classes = out.classes;
+            return o;
         }
-    }
-    if !matched {
-        let mut o = Outcome::fail(format!(
-            "keep decision differs from the documented rules: {first_diff}"
-        ));
-        o.classes = out.classes;
-        return o;
     }
 
     // metamorphic: raising one counter never removes a kept snapshot
@@ -426,6 +406,226 @@ fn run(c: &Case, _ctx: &Ctx) -> Outcome {
                 }
             }
         }
+    }
+    out
+}
+
+enum Judged {
+    Match,
+    Skip(&'static str),
+    Diff(String),
+}
+
+/// compare the library's decisions for one list (given in the library's own newest-first order)
+/// with the reference; every accepted reading of delete marks is tried
+fn judge(ordered: &[RSnap], got: &Applied, keep: &RKeep, now: i64, has_marks: bool) -> Judged {
+    let mut first_diff = String::new();
+    for reading in MARK_READINGS {
+        match reference(ordered, keep, now, reading) {
+            RefOutcome::Ambiguous => return Judged::Skip("calendar_span_readings_disagree"),
+            RefOutcome::Decisions(dec) => {
+                let same = dec.len() == got.len()
+                    && dec
+                        .iter()
+                        .zip(got.iter())
+                        .all(|(d, g)| d.keep == g.1 && d.reasons == g.2);
+                if same {
+                    return Judged::Match;
+                }
+                if first_diff.is_empty() {
+                    first_diff = describe_diff(ordered, &dec, got);
+                }
+                if !has_marks {
+                    break; // readings only differ when marks are present
+                }
+            }
+        }
+    }
+    Judged::Diff(first_diff)
+}
+
+// ---------------------------------------------------------------------------------------------
+// grouped retention: ForgetGroups::from_grouped_snapshots_with_retention over Grouped::from_items
+// must partition the snapshots exactly by the chosen criterion and apply the rules inside every
+// group on its own
+
+#[derive(Debug, Clone, Serialize, Deserialize)]
+pub struct GCase {
+    pub base: Case,
+    /// per snapshot (by position): host, label, paths variant
+    pub attrs: Vec<(u8, u8, u8)>,
+    /// group by hostname, label, paths, tags
+    pub crit: [bool; 4],
+}
+
+const HOSTS: [&str; 3] = ["h1", "h2", "H1"];
+const LABELS: [&str; 3] = ["", "l", "l "];
+const PATHS: [&[&str]; 4] = [&["/a"], &["/b"], &["/a", "/b"], &["/a/b"]];
+
+fn gstrategy(ctx: &Ctx) -> BoxedStrategy<GCase> {
+    (
+        strategy(ctx),
+        prop::collection::vec((0u8..3, 0u8..3, 0u8..4), 40),
+        // how many distinct values are in use: small domains make groups with several members
+        (1u8..=3, 1u8..=3, 1u8..=4),
+        prop::array::uniform4(prop::bool::weighted(0.5)),
+    )
+        .prop_map(|(base, attrs, (nh, nl, np), crit)| GCase {
+            base,
+            attrs: attrs
+                .into_iter()
+                .map(|(h, l, p)| (h % nh, l % nl, p % np))
+                .collect(),
+            crit,
+        })
+        .boxed()
+}
+
+type GKey = (Option<u8>, Option<u8>, Option<u8>, Option<BTreeSet<String>>);
+
+fn gkey(c: &GCase, i: usize) -> GKey {
+    let (h, l, p) = c.attrs[i];
+    (
+        c.crit[0].then_some(h),
+        c.crit[1].then_some(l),
+        c.crit[2].then_some(p),
+        c.crit[3].then(|| c.base.snaps[i].tags.clone()),
+    )
+}
+
+fn grun(c: &GCase, _ctx: &Ctx) -> Outcome {
+    use rustic_core::{ForgetGroups, Grouped, SnapshotGroupCriterion};
+    let b = &c.base;
+    let files: Vec<SnapshotFile> = b
+        .snaps
+        .iter()
+        .enumerate()
+        .map(|(i, s)| {
+            let mut sn = snapshot_of(s);
+            let (h, l, p) = c.attrs[i];
+            sn.hostname = HOSTS[usize::from(h)].to_string();
+            sn.label = LABELS[usize::from(l)].to_string();
+            let mut paths = StringList::default();
+            for x in PATHS[usize::from(p)] {
+                paths.add((*x).to_string());
+            }
+            sn.paths = paths;
+            sn
+        })
+        .collect();
+    let mut crit = SnapshotGroupCriterion::new();
+    crit.hostname = c.crit[0];
+    crit.label = c.crit[1];
+    crit.paths = c.crit[2];
+    crit.tags = c.crit[3];
+    let grouped = Grouped::from_items(files, crit);
+    let res = match ForgetGroups::from_grouped_snapshots_with_retention(
+        grouped,
+        &keep_options(&b.keep),
+        &zoned(b.now, 0),
+    ) {
+        Ok(r) => r,
+        Err(e) => return Outcome::fail(format!("grouped retention returned an error: {}", e.display_log())),
+    };
+    // expected partition
+    let mut expect: std::collections::BTreeMap<GKey, BTreeSet<&str>> = std::collections::BTreeMap::new();
+    for (i, s) in b.snaps.iter().enumerate() {
+        expect.entry(gkey(c, i)).or_default().insert(s.id_hex.as_str());
+    }
+    let multi = expect.values().any(|g| g.len() >= 2);
+    let mut out = Outcome::pass()
+        .nontrivial(expect.len() >= 2 && multi)
+        .class_if(expect.len() >= 2, "several_groups")
+        .class_if(multi, "group_with_several_members")
+        .class_if(c.crit == [false; 4], "no_criterion")
+        .class_if(c.crit[3], "by_tags");
+    if res.0.len() != expect.len() {
+        return Outcome::fail(format!(
+            "{} groups reported, the criterion {:?} partitions the snapshots into {}",
+            res.0.len(),
+            c.crit,
+            expect.len()
+        ));
+    }
+    let mut seen_keys = BTreeSet::new();
+    let mut skipped = None;
+    for g in &res.0 {
+        let Some(first) = g.items.first() else {
+            return Outcome::fail("an empty group was reported");
+        };
+        let Some(pos) = b.snaps.iter().position(|s| s.id_hex == first.snapshot.id.to_hex().to_string()) else {
+            return Outcome::fail("a reported snapshot was not given");
+        };
+        let key = gkey(c, pos);
+        if !seen_keys.insert(key.clone()) {
+            return Outcome::fail(format!("two groups for the same key {key:?}"));
+        }
+        let members: BTreeSet<String> = g.items.iter().map(|f| f.snapshot.id.to_hex().to_string()).collect();
+        let want: BTreeSet<String> = expect[&key].iter().map(|s| (*s).to_string()).collect();
+        if members != want || members.len() != g.items.len() {
+            return Outcome::fail(format!(
+                "group {key:?} holds {} snapshots, the criterion puts {} into it",
+                g.items.len(),
+                want.len()
+            ));
+        }
+        // the reported key names the values of the chosen criteria
+        let k = &g.group_key;
+        let (h, l, p) = c.attrs[pos];
+        let key_ok = k.hostname.as_deref() == c.crit[0].then_some(HOSTS[usize::from(h)])
+            && k.label.as_deref() == c.crit[1].then_some(LABELS[usize::from(l)])
+            && k.paths.is_some() == c.crit[2]
+            && k.tags.is_some() == c.crit[3]
+            && k.paths.as_ref().is_none_or(|x| {
+                let mut want = StringList::default();
+                for y in PATHS[usize::from(p)] {
+                    want.add((*y).to_string());
+                }
+                *x == want
+            })
+            && k.tags.as_ref().is_none_or(|x| *x == first.snapshot.tags);
+        if !key_ok {
+            return Outcome::fail(format!("group key {k:?} does not describe its members ({key:?})"));
+        }
+        // the rules inside the group
+        let got: Applied = g
+            .items
+            .iter()
+            .map(|f| {
+                (
+                    f.snapshot.id.to_hex().to_string(),
+                    f.keep,
+                    f.reasons.iter().cloned().collect(),
+                )
+            })
+            .collect();
+        let order: Vec<&RSnap> = got
+            .iter()
+            .map(|x| b.snaps.iter().find(|s| s.id_hex == x.0).unwrap())
+            .collect();
+        if order.windows(2).any(|w| w[0].instant() < w[1].instant()) {
+            return Outcome::fail("a group is not sorted newest first");
+        }
+        if !contiguous(&order) {
+            skipped = Some("mixed_offsets_not_judged");
+            continue;
+        }
+        let ordered: Vec<RSnap> = order.iter().map(|s| (*s).clone()).collect();
+        let has_marks = ordered.iter().any(|s| s.delete != RDelete::NotSet);
+        match judge(&ordered, &got, &b.keep, b.now, has_marks) {
+            Judged::Match => {}
+            Judged::Skip(why) => skipped = Some(why),
+            Judged::Diff(d) => {
+                let mut o = Outcome::fail(format!(
+                    "group {key:?}: keep decision differs from the documented rules applied to the group alone: {d}"
+                ));
+                o.classes = out.classes;
+                return o;
+            }
+        }
+    }
+    if let Some(why) = skipped {
+        out = out.class(format!("some_group_{why}"));
     }
     out
 }
@@ -462,6 +662,14 @@ pub fn spec() -> PropSpec {
             max_shrink_iters: 4000,
             strategy,
             run,
+        }) as Box<dyn DynSub>,
+        Box::new(Sub {
+            name: "grouped",
+            cases_quick: 300_000,
+            cases_thorough: 8_000_000,
+            max_shrink_iters: 4000,
+            strategy: gstrategy,
+            run: grun,
         }) as Box<dyn DynSub>],
         extra: None,
     }
